@@ -373,7 +373,9 @@ func CheckC03(fs *FilterSession, st *StepObs, final bool) []Finding {
 // honest peers are not.
 func (fs *FilterSession) checkBans(pf []chainhash.Hash, post []wire.BlockHeader) []Finding {
 	var out []Finding
-	if !fs.Provable() {
+	// With a hard-coded filter checkpoint that contradicts every peer, the
+	// client bans everybody by design: nothing is asserted about bans.
+	if !fs.Provable() || fs.Plan.FalseCP {
 		return nil
 	}
 	banned := map[string]banman.Reason{}
